@@ -90,6 +90,9 @@ def lowerHexBytes (s : Bytes) : Bytes := s.map toLowerHex
 
 def is40Hex (s : Bytes) : Bool := s.length == 40 && s.all isHexDigit
 
+/-- an object id on an `M` line: SHA-1 (40 hex digits) or SHA-256 (64) -/
+def isObjectId (s : Bytes) : Bool := (s.length == 40 || s.length == 64) && s.all isHexDigit
+
 /-- `StripShaLookup::contains_hex` -/
 def stripContains (ids : List Bytes) (sha : Bytes) : Bool :=
   is40Hex sha && ids.contains (lowerHexBytes sha)
@@ -424,7 +427,7 @@ def mShouldDrop (o : FOpts) (s : FState) (f : MFields) : Bool :=
   | c :: digits =>
     if c == B.colon then
       (match satDigits digits with | some n => s.oversizeMarks.contains n | none => false)
-    else if is40Hex f.id then stripContains o.stripIds f.id || (o.maxBlob.isSome && o.shaOversize f.id)
+    else if isObjectId f.id then stripContains o.stripIds f.id || (o.maxBlob.isSome && o.shaOversize f.id)
     else false
   | [] => false
 
